@@ -163,7 +163,7 @@ func (g *Gen) forks(r *Runner, caseRnd *hx.Rand) {
 func RunCase(run *hx.Run, model *hx.Model, name string, rnd *hx.Rand, o Opts) *Runner {
 	cfg := RandomConfig(rnd)
 	hashInit := rnd.Uint64() | 1
-	if rnd.Chance(1, 10) {
+	if rnd.Chance(1, 4) {
 		hashInit = 0 // start without a state file: the store draws its own hash initialisation
 	}
 	r, err := NewRunner(run, model, name, cfg, hashInit)
